@@ -450,6 +450,15 @@ func coverSeqs(rd []RDel, k string, buf []uint64) []uint64 {
 			buf = append(buf, r.Seq)
 		}
 	}
-	sort.Slice(buf, func(i, j int) bool { return buf[i] > buf[j] })
+	sortDesc(buf)
 	return buf
+}
+
+// sortDesc sorts a tiny slice in descending order (insertion sort, no allocation).
+func sortDesc(b []uint64) {
+	for i := 1; i < len(b); i++ {
+		for j := i; j > 0 && b[j] > b[j-1]; j-- {
+			b[j], b[j-1] = b[j-1], b[j]
+		}
+	}
 }
